@@ -114,8 +114,8 @@ Proof. vm_compute. repeat split. Qed.
 From IT Require Import model.PipelineInst spec.ThresholdSpec proofs.PipelineThreshold model.Subst proofs.SubstProofs.
 
 Theorem C05_rules_link_is_authorised :
-  forall now truths tc tcc cmds fuel w path d layout_env keys step_name params inter s w' tr,
-    verify_inst now truths tc tcc cmds (S fuel) w path d layout_env keys step_name params inter = (Ok s, w', tr) ->
+  forall now truths tc tcc pems cmds fuel w path d layout_env keys step_name params inter s w' tr,
+    verify_inst now truths tc tcc pems cmds (S fuel) w path d layout_env keys step_name params inter = (Ok s, w', tr) ->
     exists layout rl,
       verify_artifacts_go (map step_item (l_steps layout)) rl = Ok tt /\
       forall n lk, alookup rl n = Some lk ->
@@ -126,7 +126,7 @@ Theorem C05_rules_link_is_authorised :
            authorised_cert (vsig_tbl truths) (tbl_get_cert tc) (cc_tbl tcc) st kid e) /\
           ((e' = e /\ env_is_layout e = false) \/ env_is_layout e = true).
 Proof.
-  intros now truths tc tcc cmds fuel w path d layout_env keys step_name params inter s w' tr H.
+  intros now truths tc tcc pems cmds fuel w path d layout_env keys step_name params inter s w' tr H.
   unfold verify_inst in H. pose proof H as H0. apply verify_ok_inv in H0.
   destruct H0 as [l0 l loaded verified resolved reduced rl imeta w2 tr2 Hs Hp He Hsu Hc Hl Ht Hss Hal Hred Hel Hr1].
   exists l, rl. split; [exact Hr1|].
